@@ -442,6 +442,14 @@ fn big_documents(r: &Report) {
             docs.push(format!("{pre}{}", line.repeat(n)));
         }
     }
+    // a last line without line break that is longer than the buffers between the command and its
+    // standard output (1 KiB line buffer, 8 KiB block buffer, 64 KiB pipe)
+    let tails: &[usize] =
+        if r.tier == Tier::Quick { &[1024, 70_000] } else { &[1023, 1024, 1025, 8192, 8193, 70_000, 300_000] };
+    for &k in tails {
+        docs.push(format!("head();\n{block}{}", "m".repeat(k)));
+        docs.push(format!("{block}{}🧹", "あ".repeat(k / 3 + 1)));
+    }
     let modes = ["clean", "list-json", "list-all"];
     let radices = [docs.len(), modes.len(), 2, 3];
     let expected: u64 = radices.iter().map(|&x| x as u64).product();
